@@ -1,7 +1,8 @@
 (* C04 — the operation alphabet of DESIGN Appendix A in terms of the layer-2 model: every mutator has
    a model operation (sample arguments).  Message.AppendSignal and Message.InsertSignal are one model
    operation (the position is geometry: oracle bit); the constructors of definitions without children
-   (types, units, attributes, CAN-ID builders) and Clone of those only consume a handle.
+   (types, units, attributes, CAN-ID builders) and Clone of those only consume a handle; SignalEnum.Clone and
+   SignalEnumValue.Clone are the operations EnumClone / EvalClone.
    Definitions only. *)
 From Acme.C04 Require Export Spec RegInv.
 
@@ -21,7 +22,8 @@ Definition model_op2 (m : mutator) : option op2 :=
     | M_MultiplexerSignal_RemoveSignal => Some (MuxRemove h h)
     | M_MultiplexerSignal_ClearSignalGroup => Some (MuxClearGroup h 0%Z)
     | M_MultiplexerSignal_ClearAllSignalGroups => Some (MuxClearAll h)
-    | M_NewSignalType | M_NewSignalUnit | M_NewAttribute | M_NewCANIDBuilder | M_Clone => Some (L3 (L1 NewOther))
+    | M_NewSignalType | M_NewSignalUnit | M_NewAttribute | M_NewCANIDBuilder => Some (L3 (L1 NewOther))
+    | M_Clone => Some (EnumClone h)   (* Clone of a definition without children only consumes a handle (NewOther); SignalEnumValue.Clone is EvalClone *)
     | M_StandardSignal_SetType => Some (L3 (StdSetType h None true))
     | M_StandardSignal_SetUnit => Some (L3 (StdSetUnit h None))
     | M_EnumSignal_SetEnum => Some (L3 (EnumSetEnum h None true))
